@@ -13,6 +13,8 @@ def main():
     for fn in ('mjraw_PlaneSphere', 'mjraw_SphereSphere', 'mjraw_SphereCapsule', 'c13_frame'):
         chk.unit('verif:shims/c13_prims.c', fn, prims.CONTRACTS, 'math', 'real', abspath=SHIM, check_arith=False)
     chk.unit('verif:shims/c13_prims.c', 'mjc_PlaneCapsule', prims.plane_capsule_contracts(), 'math', 'real', abspath=SHIM, check_arith=False)
+    for fn in ('mjc_PlaneSphere', 'mjc_SphereSphere'):      # the wrappers hand the raw colliders the arrays of the right geoms
+        chk.unit('verif:shims/c13_prims.c', fn, prims.wrapper_contracts(), 'math', 'real', abspath=SHIM, check_arith=False)
     for fn in ('getMargin', 'getGap'):
         chk.unit('src/engine/engine_collision_driver.c', fn, prims.MARGIN_CONTRACTS, 'math', 'real')
     import hashlib
